@@ -7,7 +7,7 @@
     nodetest_table_sound axis_table_sound pred_eval_sound pred_outcome_sound
     substring_not_xpath ne_absent_not_xpath step_matches_eq_xp parser_rejects_outside
     select_eq_xp_step select_eq_xp_chain select_eq_xp_childpath select_eq_xp_union
-    select_eq_xp_nonpositional select_eq_xp_nonpositional_default pattern_matches_eq_xp
+    select_eq_xp_nonpositional select_eq_xp_nonpositional_default select_eq_xp_attribute pattern_matches_eq_xp
     parser_accepts_subset_partial
 -/
 import Genshi.Model.Path
@@ -23,6 +23,7 @@ import Genshi.Lemmas.PathParseChain
 import Genshi.Lemmas.PathChildPath
 import Genshi.Lemmas.PathUnion
 import Genshi.Lemmas.PathNonPos
+import Genshi.Lemmas.PathAttr
 namespace Genshi.Props.C05
 open Genshi Genshi.Path
 
@@ -677,6 +678,57 @@ example : select [[⟨.child, .localName false ['a'], []⟩, ⟨.descendantOrSel
          [Node.elem ⟨[], ['c']⟩ [(⟨[], ['k']⟩, ['1'])] [], Node.elem ⟨[], ['c']⟩ [] []]],
        Node.elem ⟨[], ['c']⟩ [(⟨[], ['k']⟩, ['2'])] []]).flatten (some .generic)
     = [.ev (.start ⟨[], ['c']⟩ [(⟨[], ['k']⟩, ['1'])]), .ev (.end_ ⟨[], ['c']⟩)] := by decide +kernel
+
+/-! ## Stage 3 for attributes: paths that end in an attribute step -/
+
+/-- **select_eq_xp** for `q/@t`.  Let `q` be empty (the path is `@t`) or any path over the
+    child / descendant / descendant-or-self / self axes without position tests, and `@t` an
+    attribute step with a name test (`@*`, `@p:*`, `@name`, `@p:name`).  Then for every
+    element tree `Path.select` under GenericStrategy delivers `Ref.xpSelect`: in document
+    order, for every element XPath reaches through `q` and that has attributes passing `t`,
+    one `Attrs` item with exactly those attributes (in the order of the element), and
+    nothing else — so `a/@href`, `.//@id`, `*[@k]/@*`, `@class` …
+
+    Proof: the matcher runs like the position machine on the steps before the attribute step
+    (`steps[:rlen]`), its result being the value of the attribute test where that machine
+    says "matched" (`gStep_abstract`, `gate`); the machine marks the nodes reached through
+    `q` (`aTree`); `attrTest_toX` identifies the reported attributes with XPath's node set
+    (this needs the attribute lists to be hygienic: distinct names); `emitAttr` turns the
+    per-event values into `Ref.pick`. -/
+theorem select_eq_xp_attribute (q : LocPath) (a : Step) (ns : NsMap) (vs : Vars)
+    (ha : a.axis = .attribute) (hat : a.test.isAttrName = true) (hawf : a.test.wf ns = true)
+    (hq : q = [] ∨ StepsOk ns vs q)
+    (tag : QName) (attrs : AttrList) (kids : List Node)
+    (hcl : (Node.elem tag attrs kids).clean = true)
+    (hnodes : AllNodes (NodeFor q ns vs) (.elem tag attrs kids)) :
+    select [q ++ [a]] ns vs (Node.elem tag attrs kids).flatten (some .generic)
+      = Ref.xpSelect [q ++ [a]] ns (toXVars vs) (.elem tag attrs kids) := by
+  have hrok : (Node.elem tag attrs kids).ok = true := ok_of_clean _ hcl
+  have hshape := attrShaped_of_isAttrName a.test ns hat
+  unfold select
+  simp only [pathTest, List.map_cons, List.map_nil, mkMatcher, gSteps_snoc_attr q a ha]
+  rw [selectGo_eq_emitV, runTest_genericL,
+    attr_run ns vs (attrBase q) a (stepsOk_attrBase ns vs q hq) ha _ hcl
+      (AllNodes.imp (fun n hn => nodeFor_attrBase ns vs q n hn) _ hnodes),
+    emitV_flat _ _ (zipWith_gate_ne_true a.test ns hshape _ _),
+    emitAttr a.test ns _ hshape _ hrok []]
+  unfold Ref.xpSelect
+  have hsel : Ref.nodeSelected [q ++ [a]] ns (toXVars vs) ⟨[], .elem tag attrs kids⟩ = fun _ => false := by
+    funext n
+    simp [Ref.nodeSelected, ha]
+  rw [hsel]
+  apply pick_congr_asel (fun n => nodeOk n) _ _ _ _ _ _ (AllNodes.imp (fun n hn => hn.1) _ hnodes)
+  intro m hm
+  rw [aselM_eq a.test ns _ m hm hat hawf, attrsSelected_single ns (toXVars vs) q a ha]
+  rw [RR_attrBase ns vs q hq tag attrs kids,
+    reach_loc ns (toXVars vs) q _ ⟨m.loc, .elem tag attrs kids⟩ m rfl]
+
+-- non-vacuity: `.//@k` on <r k="0"><a k="1"><b/></a><c j="2"/></r> yields the two k attributes
+example : select [[⟨.self, .node, []⟩, ⟨.descendantOrSelf, .node, []⟩, ⟨.attribute, .localName true ['k'], []⟩]] [] []
+    (Node.elem ⟨[], ['r']⟩ [(⟨[], ['k']⟩, ['0'])] [
+       Node.elem ⟨[], ['a']⟩ [(⟨[], ['k']⟩, ['1'])] [Node.elem ⟨[], ['b']⟩ [] []],
+       Node.elem ⟨[], ['c']⟩ [(⟨[], ['j']⟩, ['2'])] []]).flatten (some .generic)
+    = [.attrs [(⟨[], ['k']⟩, ['0'])], .attrs [(⟨[], ['k']⟩, ['1'])]] := by decide +kernel
 
 /-- **Patterns** (`Path.test(ignore_context=True)`, what match templates use).  For a path
     `s0/rest` without position tests and without a leading `.`, GenericStrategy in pattern mode
